@@ -234,6 +234,15 @@ PROPS_EXTRA = {
             "batch_not_robot": "C11",
         },
     },
+    # LAPI = the balance API (Model/LedgerApi.lean, Proofs/LedgerApi.lean, Driver/Lapi.lean, harness/drive/lapi.go)
+    "LAPI": {
+        "clauses": {
+            "negative_balance_api": "C06",
+            "api_conservation": "C06",
+            "failed_call_changed_state": "C06",
+            "index_mismatch_api": "C16",
+        },
+    },
 }
 
 _SYS_TEXT = " End to end (Proofs/System.lean): over every history of submissions, batches and task lists of the composed pipeline model (authentication + pending records + nonce windows + token bodies) "
@@ -246,3 +255,11 @@ for _p, _t in (("C01", "every body that ran is backed by a request of the histor
     PROPS[_p]["also"] = ["SYS"]
     PROPS[_p]["level_text"] += _SYS_TEXT + _t + " The composed model is tied to the code by histories on the real chaincode with balances, emission, pending ids and stored nonce windows read back from the ledger after every batch."
     PROPS[_p]["trusted_base"] = PROPS[_p]["trusted_base"] + ["end-to-end pipeline: core/cc_core.go BatchHandler/noBatchHandler, cc_batch.go batchedTxExecute/loadFromBatch, task_executor.go ExecuteTask modelled by Foundation.System.step (method table: transfer, emit, transferNb)"]
+
+_LAPI_TEXT = " Over the whole balance API (Proofs/LedgerApi.lean; all 27 mutating functions of core/ledger/balances.go as re-exported by BaseContract, through a table of primitive, balance kinds and token-component rule): "
+for _p, _t in (("C06", "no call makes a balance negative, a successful single-asset call changes exactly the balances it names by exactly its amount, unfunded or negative calls fail (api_nonneg, api_effect, api_unfunded_fails)."),
+               ("C16", "every call keeps the reverse index exact for every balance kind (api_indexed).")):
+    PROPS[_p]["modules"] = PROPS[_p]["modules"] + ["Foundation.Proofs.LedgerApi"]
+    PROPS[_p]["also"] = PROPS[_p].get("also", []) + ["LAPI"]
+    PROPS[_p]["level_text"] += _LAPI_TEXT + _t + " The table is tied to the code by histories calling every function on the real chaincode with all balances and index entries read back from the ledger's composite keys after every call."
+    PROPS[_p]["trusted_base"] = PROPS[_p]["trusted_base"] + ["core/ledger/balances.go + core/bc_balances.go modelled by the table LedgerApi.shape (27 functions)"]
